@@ -230,9 +230,11 @@ def correspondence(ctx):
         x = L.g_temporal(rng)
         reqs.append("rd.add %s %s" % (L.rd_wire(a), L.t_wire(x))); exp.append(L.run(lambda: x + a, L.t_show))
         ctx.count("corr_add")
+    reqs, exp = L.with_generated(reqs, exp)
+    ctx.count("corr_generated_requests", sum(1 for q in reqs if q.startswith("rdgen.")))
     got = ctx.driver(reqs)
     for q, e, g in zip(reqs, exp, got):
-        if q.startswith("rd.eq "):
+        if q.startswith("rd.eq ") or q.startswith("rdgen.eq "):
             # model key-equality must imply equal hashes on the implementation (the converse can fail by collision)
             ga, ea = g.split(), e.split()
             if len(ga) != 3 or ga[1] != ea[1] or (ga[2] == "1" and ea[2] != "1"):
